@@ -54,7 +54,7 @@ def date_claims(back_for=None):
 
     def dur(a, o):
         da, db, L, r, u, sgn = date_parts(a, o)
-        return r[4][0].i * NS + r[4][1].i == (ref_epoch_day(*db) - ref_epoch_day(*da)) * 86400 * NS
+        return sd_is(r[4], (ref_epoch_day(*db) - ref_epoch_day(*da)) * 86400 * NS)
     def years(a, o):
         (y1, m1, d1), (y2, m2, d2), L, r, (yrs, mos, wks, dys), sgn = date_parts(a, o)
         dim = ref_dim(y2, m1)
@@ -84,7 +84,7 @@ def date_until_claim(a, o):
     balanced = And(Implies(L == 9, absz(mos) < 12), Implies(L >= 8, absz(dys) < 31), Implies(L == 7, absz(dys) < 7))
     since = r[3]
     neg = And(since.is_some, And([x == -y for x, y in zip(since.some.ints(), (yrs, mos, wks, dys))]))
-    dur = r[4][0].i * NS + r[4][1].i == (ref_epoch_day(*db) - ref_epoch_day(*da)) * 86400 * NS
+    dur = sd_is(r[4], (ref_epoch_day(*db) - ref_epoch_day(*da)) * 86400 * NS)
     return And(o.is_some, o.some.is_some, back_ok, sign_ok([yrs, mos, wks, dys], sgn), And([t == 0 for t in tunits]), above, balanced, neg, dur)
 
 
@@ -114,7 +114,13 @@ def time_until_claim(a, o):
                span_time_total(u) == diff, sign_ok(u, sgn), time_balance(u, L),
                nanos_of_day(*r[2].ints()) == time_total(tb),
                r[3].is_some, And([x == -y for x, y in zip(r[3].some.ints(), u)]),
-               r[4][0].i * NS + r[4][1].i == diff)
+               sd_is(r[4], diff))
+
+
+def sd_is(p, total):
+    """p = Out of (secs, nanos): the normal form (|nanos| < 1 s, signs agree) denoting `total`"""
+    sec, n = p[0].i, p[1].i
+    return And(sec * NS + n == total, n > -NS, n < NS, Not(And(sec > 0, n < 0)), Not(And(sec < 0, n > 0)))
 
 
 def ts_until_claim(a, o):
@@ -130,7 +136,7 @@ def ts_until_claim(a, o):
                    span_time_total(u) == diff, sign_ok(u, sgn), time_balance(u, L),
                    r[2].is_some, r[2].some[0].i * NS + r[2].some[1].i == T2,
                    r[3].is_some, And([x == -y for x, y in zip(r[3].some.ints(), u)]),
-                   r[4][0].i * NS + r[4][1].i == diff)
+                   sd_is(r[4], diff))
     return And(o.is_some, opt_is(o.some, fits, payload))
 
 
